@@ -603,18 +603,18 @@ class ASTListener(ModelicaListener):
             self.ast[ctx] = self.ast[ctx.class_elem]
 
     def enterComponent_clause(self, ctx: ModelicaParser.Component_clauseContext):
-        prefixes = ctx.type_prefix().getText().split(" ")
-        if prefixes[0] == "":
-            prefixes = []
+        # One list entry per keyword: getText() would glue several keywords
+        # ("parameter input") together into one string.
+        prefixes = [child.getText() for child in (ctx.type_prefix().children or [])]
         self.ast[ctx] = ast.ComponentClause(
             prefixes=prefixes,
         )
         self.comp_clause = self.ast[ctx]
 
     def enterComponent_clause1(self, ctx: ModelicaParser.Component_clause1Context):
-        prefixes = ctx.type_prefix().getText().split(" ")
-        if prefixes[0] == "":
-            prefixes = []
+        # One list entry per keyword: getText() would glue several keywords
+        # ("parameter input") together into one string.
+        prefixes = [child.getText() for child in (ctx.type_prefix().children or [])]
         self.ast[ctx] = ast.ComponentClause(
             prefixes=prefixes,
         )
